@@ -131,7 +131,13 @@ def run_real(inp: Dict[str, Any], via: str, form: str = "groups"):
     groups, glr, cells, params = build(inp)
     before = snapshot(groups, cells)
     arg: Any = groups
-    bare = form != "groups"
+    bare = form not in ("groups", "groups_iter", "groups_tuple", "groups_gen")
+    if form == "groups_iter":      # the containers torch accepts for a group's params: one-shot iterators, tuples, generators
+        arg = [dict(g_, params=iter(list(g_["params"]))) for g_ in groups]
+    elif form == "groups_tuple":
+        arg = [dict(g_, params=tuple(g_["params"])) for g_ in groups]
+    elif form == "groups_gen":
+        arg = [dict(g_, params=(p_ for p_ in list(g_["params"]))) for g_ in groups]
     if bare:
         flat = [p for g in groups for p in g["params"]]
         arg = flat if form == "list" else (p for p in flat)
@@ -342,8 +348,9 @@ def run(rep: Report, tier: str) -> None:
         inp = norm_inp(rec["inp"])
         vias = ["scaled_parameters"] + ([rng.choice(["SGD", "AdamW", "Adam"])] if inp["glr"] != 0 and rng.random() < 0.3 else [])
         for via in vias:
-            got = run_real(inp, via)
-            compare(rep, inp, rec["res"], rec["err"], got, via, "groups")
+            form = rng.choice(["groups", "groups", "groups_iter", "groups_tuple", "groups_gen"])
+            got = run_real(inp, via, form)
+            compare(rep, inp, rec["res"], rec["err"], got, via, form)
         if bare_ok(inp):
             form = rng.choice(["list", "gen"])
             got = run_real(inp, "scaled_parameters", form)
